@@ -80,3 +80,39 @@ SPEC("pane.annotations", "Condition.__or__",
 SPEC("pane.annotations", "Condition._converter",
      ensures=[(lambda self, inner_type, handlers, result: result.condition is self.f and result.inner_type is inner_type
                and result.handlers is handlers, ["C13", "C18"], "wiring")])
+
+
+# ---------------------------------------------------------------------------------------------
+# Annotated[T, ...] (convert.py:_annotated_converter): several conditions on one annotation are bundled with all();
+# anything that is not a pane annotation is refused BEFORE any data is looked at (C04)
+def all_conditions(args, n):
+    return forall(range(n), lambda j: isinstance(sat(args, j), Condition))
+
+
+SPEC("pane.convert", "_annotated_converter",
+     shapes={"args": "seq", "args[]": "rec:Condition"},
+     ensures=[
+         (lambda ty, args, handlers, result: implies(slen(args) == 0, result == ite(isinstance(ty, Converter), ty, mkconv(ty, handlers))), ["C13"], "no-annotation"),
+         # exactly one condition: that condition's converter around T, built with the same handlers
+         (lambda ty, args, handlers, result: implies(slen(args) == 1 and isinstance(sat(args, 0), Condition),
+                                                     exists_val(lambda R: R == call(attr(sat(args, 0), "_converter"), ty, handlers=handlers)
+                                                                and result == ite(isinstance(R, Converter), R, mkconv(R, handlers)))), ["C13", "C18"], "one-condition"),
+         # several conditions: ONE conditional converter whose predicate is their conjunction
+         (lambda ty, args, handlers, result: implies(slen(args) > 1 and all_conditions(args, slen(args)),
+                                                     exists_val(lambda C: isinstance(C, Condition)
+                                                                and forall_val(lambda v: cond_true(C, v) == forall(range(slen(args)), lambda j: cond_true(sat(args, j), v)))
+                                                                and exists_val(lambda R: R == call(attr(C, "_converter"), ty, handlers=handlers)
+                                                                               and result == ite(isinstance(R, Converter), R, mkconv(R, handlers))))),
+          ["C13", "C18"], "bundled")],
+     raises=(lambda ty, args, handlers, exc: exc_is(exc, UnsupportedAnnotation) or exc_is(exc, TypeError), ["C04"]),
+     raises_assumed=True,
+     note="exceptional clause assumed for callers (annotation _converter methods raise TypeError at most)",
+     invariants={0: lambda it, conditions, conv, ty, args: implies(all_conditions(args, it),
+                                                                   conv is ty and slen(conditions) == it
+                                                                   and forall(range(it), lambda j: sat(conditions, j) == sat(args, j)))})
+
+# a non-annotation argument is refused
+SPEC("pane.annotations", "Tagged._converter",
+     ensures=[(lambda self, inner_type, handlers, result: result == TaggedUnionConverter(
+         tuple(ret("pane.util:flatten_union_args", get_args(inner_type))), tag=self.tag, external=self.external, handlers=handlers), ["C12", "C18"], "wiring")],
+     raises=(lambda self, inner_type, handlers, exc: exc_is(exc, TypeError) or exc_is(exc, AttributeError) or exc_is(exc, UnsupportedAnnotation), ["C12", "C04"]))
